@@ -43,9 +43,10 @@ BOUNDS = {
              "TRI(P): convex 4,5,6-gons, hexagon+1 and pentagon+2 interior points, ccw and cw; ZOO (grids <=4x4, holey 3x3 grids "
              "<=2 faces removed, octahedron, icosahedron, tori, antiprisms, Csaszar torus, quad/mixed/pentagon meshes for the "
              "incidence operators); TET n<=5 all (27) + TET(6) classes (16) x 3 alphabets x 3 cell orderings; GRAPH n<=5 all "
-             "(1099) x 2 alphabets x 2 edge orientations",
-    "thorough": "as quick, with ALL labelled SURF(6) (12934) x {generic, lattice}, all labelled TET(6) (2422) x 3 alphabets, "
-                "convex 7-gon and hexagon+2 interior points, grids <=5x5, all holey 3x3 grids",
+             "(1099) x 2 alphabets x 2 edge orientations; octahedron split around an interior vertex (3 positions)",
+    "thorough": "as quick (full option cross product on everything quick covers), plus ALL labelled SURF(6) (12934) x {generic, lattice} "
+                "and all labelled TET(6) (2422) x 3 alphabets with the reduced option menu order=4 / format=csc (every other option "
+                "still crossed), convex 7-gon and hexagon+2 interior points, grids <=5x5, all holey 3x3 grids",
 }
 
 TOL = 1e-9
@@ -154,6 +155,14 @@ def _vol_specs(tier):
                 for vt, cl in variants:
                     S.append({"name": f"{tag}#{i}:{al}:{vt}", "pts": [list(p) for p in pts], "cells": [list(c) for c in cl],
                               "lite": int(tag == "tet6")})
+    # ZOO: octahedron split into 8 cells around an interior vertex (centred, off-centre, and off-centre far enough
+    # for obtuse dihedral angles opposite to the interior edges)
+    for cx_ in (0, 1, 3):
+        pts = [(4, 0, 0), (-4, 0, 0), (0, 4, 0), (0, -4, 0), (0, 0, 4), (0, 0, -4), (cx_, 0, 0)]
+        cells = [(6, a, b_, c) for a in (0, 1) for b_ in (2, 3) for c in (4, 5)]
+        S.append({"name": f"octa_center{cx_}", "pts": [list(p) for p in pts], "cells": [list(c) for c in cells]})
+        S.append({"name": f"octa_center{cx_}:positive", "pts": [list(p) for p in pts],
+                  "cells": [list(c) for c in F.orient_cells_positive(cells, pts)]})
     if tier == "thorough":
         for i, cells in enumerate(F.tet6_classes()):
             for al, P in TET_ALPHA.items():
@@ -535,10 +544,12 @@ def _surface(M, spec, rep: Report):
                 if bad:
                     out.append(("laplacian.stiffness", "mismatch:entry", bad))
             else:
-                # documented: "only 0/1 values as a graph laplacian"
-                bad = _cmp(A, GL)
-                if bad:
-                    out.append(("laplacian.uniform_is_graph_laplacian", "mismatch:entry", bad))
+                # The statement fixes no normalisation for the uniform ("cotangents replaced by a constant")
+                # variant - the library weighs a border edge 1/2 and an interior edge 1 - so only its support and
+                # sign are judged: a negative entry exactly on the edges of the mesh (same pattern as D - A).
+                off = A - np.diag(np.diag(A))
+                if ((off < -1e-12) != (GL - np.diag(np.diag(GL)) < -0.5)).any() or (off > 1e-12).any():
+                    out.append(("laplacian.uniform_pattern", "mismatch:support_or_sign", {"got": A.tolist()}))
             lib_scalar[opts["cotan"]] = A
         else:
             bad = _cmp(A, A.conj().T)
@@ -561,7 +572,7 @@ def _surface(M, spec, rep: Report):
     fvals = []
     AFF = [((1, 0, 0), 0), ((0, 1, 0), 0), ((0, 0, 1), 0), ((2, -3, 5), 7), ((0, 0, 0), 7)]
     for a, b in AFF:
-        fvals.append(np.array([float(sum(Fr_ * x for Fr_, x in zip(a, p)) + b) for p in P]))
+        fvals.append(np.array([float(sum(ak * x for ak, x in zip(a, p)) + b) for p in P]))
     areas = np.array(so.area)
     normals = np.array(so.normal)
 
@@ -817,6 +828,14 @@ def _volume(M, spec, rep: Report):
     formats = ["csc"] if spec.get("lite") else FORMATS
     rep.flag("vol:obtuse" if obtuse else "vol:acute")
     rep.flag("vol:C=1" if nc == 1 else "vol:C>1")
+    tri_count = {}
+    for c in cells:
+        for t in itertools.combinations(sorted(c), 3):
+            tri_count[t] = tri_count.get(t, 0) + 1
+    if set(range(n)) - set(v for t, k in tri_count.items() if k == 1 for v in t):
+        rep.flag("vol:interior_vertex")
+        if obtuse:
+            rep.flag("vol:interior_vertex+obtuse")
     key = (tuple(pts), tuple(cells))
     cx = Ctx(rep, mclass, {"pts": spec["pts"], "cells": spec["cells"], "name": spec["name"]}, key,
              fine=mclass + (":C=1" if nc == 1 else ""))
@@ -949,7 +968,7 @@ def run_task(task, rep: Report):
 def finish(tier, rep: Report):
     fails = []
     need = ["oracle_selftest_passed", "surf:closed", "surf:bordered", "surf:planar", "surf:cw", "surf:iso", "surf:poly", "surf:F=1",
-            "surf:right_angle", "vol:obtuse", "vol:acute", "vol:C=1", "vol:C>1", "polyline:last_vertex_isolated",
+            "surf:right_angle", "vol:obtuse", "vol:acute", "vol:C=1", "vol:C>1", "vol:interior_vertex", "vol:interior_vertex+obtuse", "polyline:last_vertex_isolated",
             "polyline:E=0", "polyline:disconnected", "adjacency:coo_triplets_inspected"]
     for f in need:
         if f not in rep.flags:
